@@ -210,6 +210,26 @@ def check(ctx):
         pre = "time" in ci.all_fields() or any("time" in c.class_attrs for c in ci.mro())
         ctx.check(not pre, "C17-d", f"{RES}{cls}:time not pre-assigned", f"{ci.module.relpath}:{ci.node.lineno}", "no class attribute or dataclass field pre-assigns `time`", signature="time pre-assigned")
 
+    # ---- C17-h a rejected simulate() leaves no field behind: on every raising path of simulate nothing has been
+    # published as self.pseudopressure (otherwise "recovery requested before any simulation" no longer raises but is
+    # computed from an unwritten buffer)
+    for cls in SIM_CLASSES:
+        it5, m5, paths5 = method_paths(ctx, cls, "simulate")
+        leaked = []
+        n_raise = 0
+        for p in paths5:
+            if p.outcome != "raise":
+                continue
+            n_raise += 1
+            for e in p.events:
+                if e.kind == "store_attr" and e.data["attr"] == "pseudopressure" and getattr(e.data.get("base"), "name", None) == "self":
+                    leaked.append(f"line {e.line} before {p.exc} [{', '.join(('' if c else 'not ') + d[:40] for _k, c, d in p.decisions)}]")
+        ctx.check(
+            not leaked, "C17-h", f"{RES}{cls}.simulate:nothing published when rejected", m5.where(),
+            "on every path of simulate that ends in an exception, self.pseudopressure has not been assigned (the result array is published only after the run)",
+            signature="pseudopressure published before a raise", stores=leaked[:3], nontrivial=n_raise > 0,
+        )
+
     # ---- C17-e interpolator contract
     for cls in SIM_CLASSES:
         it4, m, paths = method_paths(ctx, cls, "recovery_factor_interpolator")
